@@ -106,3 +106,23 @@ impl MontCurveConfig for Te13 {
     const COEFF_B: F13 = MontFp!("7");
     type TECurveConfig = Te13;
 }
+
+// ---- multi-limb derived fields (the generator's unrolled code for N = 2..6; sampled, see field::multi_limb)
+macro_rules! wide_field {
+    ($cfg:ident, $ty:ident, $n:literal, $p:literal, $g:literal) => {
+        #[derive(MontConfig)]
+        #[modulus = $p]
+        #[generator = $g]
+        pub struct $cfg;
+        pub type $ty = ark_ff::Fp<MontBackend<$cfg, $n>, $n>;
+    };
+}
+wide_field!(CW2sp, W2sp, 2, "42535295865117307932921825928971026423", "3");
+wide_field!(CW2ns, W2ns, 2, "340282366920938463463374607431768211297", "3");
+// exactly two spare bits, p close to 2^126: the tightest case of the generated sum_of_products batching bound
+wide_field!(CW2s2, W2s2, 2, "85070591730234615865843651857942052727", "5");
+wide_field!(CW2m127, W2m127, 2, "170141183460469231731687303715884105727", "3");
+wide_field!(CW3ns, W3ns, 3, "6277101735386680763835789423207666416102355444464034512659", "5");
+wide_field!(CW4fr, W4fr, 4, "52435875175126190479447740508185965837690552500527637822603658699938581184513", "7");
+wide_field!(CW4secp, W4secp, 4, "115792089237316195423570985008687907853269984665640564039457584007908834671663", "3");
+wide_field!(CW6fq, W6fq, 6, "4002409555221667393417789825735904156556882819939007885332058136124031650490837864442687629129015664037894272559787", "2");
